@@ -2,6 +2,8 @@
   C06 — accepted programs are well-formed and obey the selected rule set (property theorems).
 -/
 import Gmars.Model.Compile
+import Gmars.Proofs.AsmTailCor
+import Gmars.Proofs.AsmTailReject
 import Gmars.Spec.Legal88
 import Gmars.Proofs.LoadOK
 import Gmars.Proofs.CompileWF
@@ -58,6 +60,42 @@ theorem assemble_wf {cfg : Config} {src : List UInt8} {w : WarriorData}
   obtain ⟨lines, ameta, hc⟩ := assemble_ok_from_compile h
   obtain ⟨h1, h2, h3⟩ := Compile.compile_wf hc h63
   exact ⟨h1, h2, h3, fun h88 => Compile.compile_88_legal hc h88⟩
+
+open AsmTail AsmLine in
+/-- a label on the END line used as the operand of instruction `i` of an `n`-instruction
+    program gives the field `(n - i) mod M` in the reference meaning (which the assembler
+    computes: `C03.assemble_meaning_equ_tail`) — for `i = 0` and `n = M` that is 0, never `M` -/
+theorem end_label_field (sc : Spec.Cfg) (body : List XItem) (kw : String)
+    (e : Option (List Spec.ETok)) (tail : List String) (last : String) (i : Nat)
+    (op : String) (md : Option String) (mode : Option Mode) (b : Spec.POperand) (ins : Instr)
+    (hnd : ((xlabelsFrom 0 body).map (·.1) ++ tail ++ (xequs body).map (·.1) ++ constNames).Nodup)
+    (hl : last ∈ tail) (hi : i ≤ xinstrCount body) (hM : 0 < sc.M) (h31 : sc.M ≤ 2 ^ 31)
+    (h : Spec.instrMeaning sc (xtablesT sc body kw e tail) i op md ⟨mode, [.name last]⟩ (some b) =
+      some ins) :
+    ins.a = UInt64.ofNat ((xinstrCount body - i) % sc.M) :=
+  AsmLine.instrMeaning_tail_a sc body kw e tail last i op md mode b ins hnd hl hi hM h31 h
+
+open AsmTail AsmComposeEqu AsmCompose AsmLine Render in
+/-- `org last` / `end last` with `last` written on the END line of a non-empty program shorter
+    than the core is rejected, from bytes, for every spacing: the entry point would be one past
+    the end of the code -/
+theorem end_label_as_entry_rejected (cfg : Config) (sc : Spec.Cfg) (p : TProg) (d : String → Nat)
+    (last : String)
+    (hv : cfg.validate = true) (h63 : cfg.coreSize.toNat < 2 ^ 63) (hr : CfgRel cfg sc)
+    (hlex : p.LexOK) (hnames : p.base.NamesOK) (htn : ∀ l ∈ p.tail, IsLabelName l)
+    (hplain : ∀ cs k, EItem.comment cs k ∈ p.items → plainComment cs)
+    (hnd : (p.labels ++ p.tail ++ p.equNames ++ constNames).Nodup)
+    (hcl : ∀ x ∈ p.names, x ∈ p.labels ∨ x ∈ p.tail ∨ x ∈ p.equNames ∨ x ∈ constNames)
+    (hsmall : xinstrCount p.body < 2 ^ 63)
+    (hrk : ERanked (xequs p.body ++ Spec.predefined sc) d) (hlt : ∀ s, d s < 63)
+    (hw : XProgWF lexString sc (xtablesT sc p.body p.kw p.e p.tail) 0 p.xitems)
+    (ls : List SrcLine) (hls : ∀ l ∈ ls, l.ok (some '\n') = true) (hsame : SameLines ls p.srcLines)
+    (src : List UInt8) (hsrc : decodeRunes src = renderLines ls)
+    (hl : last ∈ p.tail) (hstart : xstart p.xitems = [.name last])
+    (hn : 0 < xinstrCount p.body) (hnM : xinstrCount p.body < sc.M) (h31 : sc.M ≤ 2 ^ 31) :
+    assemble cfg src = .err :=
+  AsmTail.assemble_start_tail_rejected cfg sc p d last hv h63 hr hlex hnames htn hplain hnd hcl hsmall
+    hrk hlt hw ls hls hsame src hsrc hl hstart hn hnM h31
 
 /-
   The 2^63 bound of `compile_wf` is tight: with coreSize = 3·2^62 (accepted by Validate) `int(m)`
